@@ -1,6 +1,8 @@
 #pragma once
 // Shared plumbing of the harnesses: argument parsing, result/evidence accumulation, violations with replay files,
 // deadlines, fork isolation.  Plain C++17, no dependency on the repository.
+#include <sys/stat.h>
+#include <unistd.h>
 #include <string>
 #include <vector>
 #include <map>
@@ -51,6 +53,12 @@ inline Args parse_args(int argc, char** argv) {
     }
     return a;
 }
+
+
+// scratch space of a run: memory-backed when the machine offers it (the solver-level harnesses create and remove an output folder per execution; on a loaded disk that
+// latency, not the code under test, decided how much a deadline could cover), else under build/run.  Every harness removes what it created; bin/vcheck sweeps what a crash leaves.
+inline std::string scratch_base() { static std::string d; if (!d.empty()) return d; const char* e = getenv("VERIF_SCRATCH"); if (e && *e) d = e; else if (access("/dev/shm", W_OK) == 0) d = "/dev/shm/verif-scratch"; else d = std::string(getenv("VERIF_DIR") ? getenv("VERIF_DIR") : ".") + "/build/run";
+    std::string cmd = d; for (size_t i = 1; i <= cmd.size(); i++) if (i == cmd.size() || cmd[i] == '/') { std::string sub = cmd.substr(0, i); mkdir(sub.c_str(), 0777); } return d; }
 
 struct Violation { std::string key, what, replay; };
 
